@@ -223,6 +223,7 @@ class World:
         t = self.tape
         c = self.draw_config()
         loop = self.loop = SimLoop()
+        loop.tie_breaker = lambda n: t.draw(n, 'tie')
         self.isl['time'].now = loop.time
         P = self.mods['pool']
         amsg = self.mods['amsg']
@@ -346,13 +347,13 @@ class World:
             self.client_tasks.append(loop.harness_task(self.client(i)))
         horizon = c['nreq'] * (c['think'] + c['svc'] + 2)
         for _ in range(c['nidlecrash']):
-            loop.call_later(t.draw(horizon + 1, 'idlecrash_at') * MS, self.idle_crash,
+            loop.call_later_external(t.draw(horizon + 1, 'idlecrash_at') * MS, self.idle_crash,
                             t.draw(8, 'idlecrash_which'))
         for _ in range(c['ndrop']):
-            loop.call_later(t.draw(horizon + 1, 'drop_at') * MS, self.drop_tenant,
+            loop.call_later_external(t.draw(horizon + 1, 'drop_at') * MS, self.drop_tenant,
                             t.draw(c['ntenants'], 'drop_which'))
         for _ in range(c['ntemplatecrash']):
-            loop.call_later(t.draw(horizon + 1, 'tmpl_at') * MS, self.template_crash)
+            loop.call_later_external(t.draw(horizon + 1, 'tmpl_at') * MS, self.template_crash)
         await asyncio.wait(self.client_tasks)
         for tk in self.client_tasks:
             if not tk.cancelled() and tk.exception() is not None:
@@ -455,10 +456,10 @@ class World:
         txs = 0
         pause_at = t.draw(c['nreq'], 'longpause_at') if c['longpause'] and i == 0 else -1
         for r in range(c['nreq']):
-            await asyncio.sleep(t.draw(c['think'] + 1, 'think') * MS)
+            await self.loop.sleep_external(t.draw(c['think'] + 1, 'think') * MS)
             if r == pause_at:
                 self.probes['long_pause'] += 1
-                await asyncio.sleep(61.0 + t.draw(10, 'longpause_len'))
+                await self.loop.sleep_external(61.0 + t.draw(10, 'longpause_len'))
             if c['ntenants'] > 1 and t.draw(4, 'switch_tenant') == 3:
                 tn = t.draw(c['ntenants'], 'client_tenant2')
             if t.chance(c['pmutate'], 100, 'mutate'):
@@ -502,7 +503,7 @@ class World:
         self.ev('call', i, meta['method'], tag)
         task = loop.harness_task(coro)
         if c['pcancel'] and t.chance(c['pcancel'], 100, 'cancel'):
-            loop.call_later(t.draw(c['svc'] + 4, 'cancel_after') * MS, self.cancel_call, task, tag)
+            loop.call_later_external(t.draw(c['svc'] + 4, 'cancel_after') * MS, self.cancel_call, task, tag)
         try:
             res = await task
             status = 'ok'
@@ -581,7 +582,7 @@ class World:
         seen = [tag]
         root = snap[1]
         for k in range(1 + t.draw(3, 'tx_len')):
-            await asyncio.sleep(t.draw(c['think'] + 1, 'tx_think') * MS)
+            await self.loop.sleep_external(t.draw(c['think'] + 1, 'tx_think') * MS)
             tag = self.new_tag('compile_in_tx')
             o = self.opts(tag)
             self.probes['compile_in_tx'] += 1
@@ -776,7 +777,7 @@ class World:
         self.procs[pid] = wk
         if delay is None:
             delay = (1 + self.tape.draw(5, 'spawn_delay')) * MS
-        self.loop.call_later(delay, self.worker_connects, wk)
+        self.loop.call_later_external(delay, self.worker_connects, wk)
         return wk
 
     def worker_connects(self, wk):
@@ -823,7 +824,7 @@ class World:
         if c['pstuck'] and t.chance(c['pstuck'], 100, 'stuck_worker'):
             lat = 3500 + lat * 100
             self.faults['very_slow_worker'] += 1
-        self.loop.call_later(lat * MS, self.serve, wk)
+        self.loop.call_later_external(lat * MS, self.serve, wk)
 
     def serve(self, wk):
         if not wk.alive:
